@@ -139,6 +139,17 @@ CLAIMED = {
    note=("partial: 'same results/exceptions/output with and without tracing' is a statement about CPython executing a program: observed "
          "differentially on the tripwire workloads, not proved; the traced/untraced runs share one interpreter"),
    technique="Lean 4 proof (case analysis of the guarded callback and context manager; structural induction over values) + differential tripwire runs"),
+ "C13": dict(
+   text=("Lean 4 theorems stating the decision logic of update_signature_args / update_signature_return outright, for every position of a "
+         "signature of any length: REPLICATE keeps source annotations and fills unannotated traced positions, OMIT blanks annotated positions "
+         "and fills the others, IGNORE gives every traced position the traced type, no mode invents an annotation for a position with neither, "
+         "the receiver never gets a traced type, a generator's return is Iterator[yield] or Generator[yield, None, return] with the exact side "
+         "conditions, an annotation with a None default is shown as Optional. Tied to /repo by comparing get_updated_definition on generated "
+         "annotated signatures x traced subsets x strategies x return/yield combinations with the model and with the property's own table; a "
+         "sample goes through the real `stub` CLI with each flag."),
+   ref="DESIGN.md section 4 C13",
+   note="trusted: Lean kernel + standard axioms; hand-written model tied by correspondence; source annotations are opaque to the model (identity only)",
+   technique="Lean 4 proof (decision table by case analysis, lifted to lists) + differential correspondence"),
 }
 
 NOT_YET = "check not built yet (build in progress; see DESIGN.md section 10)"
